@@ -88,10 +88,22 @@ def r2(cx):
     co = cx.mir.one("varlink", "server::activation_listener")
     cx.saw(sp); cx.saw(co)
     envs = {}
+    _esl = Slice(sp, DefUse(sp))
+    def _cs(op):
+        if op.is_const: return op.cstr()
+        c = const_strings(sp, _esl, op)
+        return c[0] if len(c) == 1 else None
     for t in sp.calls("std::process::Command::env"):
-        k = t.args[1].cstr() if t.args[1].is_const else None
-        v = t.args[2].cstr() if t.args[2].is_const else "<computed>"
-        envs[k] = v
+        if t.callee.name == "env" and len(t.args) >= 3:
+            envs[_cs(t.args[1])] = _cs(t.args[2]) or "<computed>"
+        elif t.callee.name == "envs" and len(t.args) >= 2:
+            # `.envs([(k, v), ..])`: an array (or vec) of pairs
+            for k0, o0 in _esl.origins(t.args[1], follow_agg=False):
+                if k0 != "agg": envs[None] = "<computed>"; continue
+                for pair in o0.ops:
+                    for k1, o1 in _esl.origins(pair, follow_agg=False):
+                        if k1 == "agg" and len(o1.ops) == 2: envs[_cs(o1.ops[0])] = _cs(o1.ops[1]) or "<computed>"
+                        else: envs[None] = "<computed>"
     pre = [b for b in cx.mir.bodies("varlink") if b.parent == sp.path and b.promoted is None]
     pre_exec_calls = sp.calls("=pre_exec")
     if len(pre_exec_calls) != 1: raise AnchorMissing("varlink_exec: expected one pre_exec call")
@@ -149,6 +161,13 @@ def r2(cx):
     cx.check(handled, "C16.R2", "varlink:varlink_exec:fd3-cloexec", clos_body.sp,
              "when the listener already is descriptor 3 nothing clears its close-on-exec flag: the activated service starts without its socket",
              note_ok="fd == 3: fcntl(F_SETFD, 0)")
+    # the parent keeps no copy of the listening socket: it is an owned UnixListener that is dropped when varlink_exec returns; once
+    # the child has it, only the child's copy must remain (otherwise a service that fails to start leaves the client's connect()
+    # hanging on a socket nobody will ever accept from)
+    leaks = [t for t in sp.calls("=into_raw_fd", "=forget", "=leak", "=into_raw", "=from_raw_fd") if "Child" not in t.callee.path]
+    cx.check(not leaks, "C16.R2", "varlink:varlink_exec:parent-drops-listener", sp.sp,
+             "the listening socket is turned into a bare descriptor with %s (%s): the parent never closes its copy, so a connection to a service that failed to start hangs instead of failing" % (leaks[0].callee.name if leaks else "", leaks[0].sp if leaks else ""),
+             note_ok="the UnixListener is only borrowed (as_raw_fd) and dropped on return")
     # consumer
     _cdu = DefUse(co); _csl = Slice(co, _cdu)
     def var_name(t):
